@@ -31,9 +31,9 @@ struct WorkC {
   template <class A>
   void io(A &a) { a("g", g); a("pool", pool); a("threads", threads); a("repeats", repeats); }
 };
-enum { T_EVAL, T_COPY_DESTROY, T_ASSIGN, T_ADD, T_SUB, T_MUL, T_APPLY, T_APPLY_SPLINEOP, T_LINFORM, T_BILFORM, T_GENERATE, T_PRED, T_LINCOMB, T_SUPPORT, T_INTEGRATE, T_GRID_COPY, T_COUNT };
+enum { T_EVAL, T_COPY_DESTROY, T_ASSIGN, T_ADD, T_SUB, T_MUL, T_APPLY, T_APPLY_SPLINEOP, T_LINFORM, T_BILFORM, T_GENERATE, T_PRED, T_LINCOMB, T_SUPPORT, T_INTEGRATE, T_GRID_COPY, T_EQUAL_GRID_MIX, T_LOCAL_GRID_MIX, T_HIGH_ORDER_OPS, T_COUNT };
 static const char *tname(int c) {
-  static const char *n[] = {"evaluate", "copy+destroy", "copy-assign", "a+b", "a-b", "a*b", "apply-operator", "apply-spline-operator", "linear-form", "bilinear-form", "generateBSplines", "predicates", "linearCombination", "support-algebra", "integrate", "grid-copy"};
+  static const char *n[] = {"evaluate", "copy+destroy", "copy-assign", "a+b", "a-b", "a*b", "apply-operator", "apply-spline-operator", "linear-form", "bilinear-form", "generateBSplines", "predicates", "linearCombination", "support-algebra", "integrate", "grid-copy", "mix-with-equal-grid-object", "mix-with-thread-local-grid", "high-order-operators"};
   return c >= 0 && c < T_COUNT ? n[c] : "?";
 }
 
@@ -45,6 +45,10 @@ struct Pool {
   std::vector<bspline::Spline<D, 2>> s2;
   std::vector<bspline::Spline<D, 3>> s3;
   std::vector<bspline::support::Support<D>> sups;
+  // a logically equal grid held in a DISTINCT object (separately allocated storage) and splines living on it
+  bspline::support::Grid<D> grid2;
+  std::vector<bspline::Spline<D, 1>> s1b;
+  std::vector<bspline::Spline<D, 2>> s2b;
   bspline::BSplineGenerator<D> gen;
   decltype(bo::X<1>{} * bo::Dx<1>{} - 2) op1 = bo::X<1>{} * bo::Dx<1>{} - 2;
   decltype(0.5 * (-bo::Dx<2>{} + bo::X<2>{})) op2 = 0.5 * (-bo::Dx<2>{} + bo::X<2>{});
@@ -53,13 +57,15 @@ struct Pool {
   bi::BilinearForm<bo::Derivative<1>, bo::Derivative<1>> bf{bo::Dx<1>{}, bo::Dx<1>{}};
   bi::ScalarProduct sp{};
   Pool(const WorkC &c, const bspline::support::Grid<D> &g)
-      : grid(g), gen(std::vector<D>(g.begin(), g.end()), g), sop(make_spline<D, 1>(g, c.pool.empty() ? SplineC() : c.pool[0])) {
+      : grid(g), grid2(std::vector<D>(g.begin(), g.end())), gen(std::vector<D>(g.begin(), g.end()), g), sop(make_spline<D, 1>(g, c.pool.empty() ? SplineC() : c.pool[0])) {
     for (size_t i = 0; i < c.pool.size(); i++) {
       s0.push_back(make_spline<D, 0>(g, c.pool[i]));
       s1.push_back(make_spline<D, 1>(g, c.pool[i]));
       s2.push_back(make_spline<D, 2>(g, c.pool[i]));
       s3.push_back(make_spline<D, 3>(g, c.pool[i]));
       sups.push_back(s0.back().getSupport());
+      s1b.push_back(make_spline<D, 1>(grid2, c.pool[i]));
+      s2b.push_back(make_spline<D, 2>(grid2, c.pool[i]));
     }
   }
 };
@@ -95,6 +101,38 @@ static void run_ops(const Pool &P, const ThreadC &t, std::vector<D> &out) {
       case T_LINCOMB: { std::vector<D> cf(P.s2.size(), 0.5); cf[i] = -1.25; fold(out, bspline::linearCombination(cf, P.s2)); break; }
       case T_SUPPORT: { auto u = P.sups[i].calcUnion(P.sups[j]); auto x = P.sups[i].calcIntersection(P.sups[j]); auto cp = P.sups[i]; out.push_back((D)u.size() + 16 * (D)x.size() + 256 * (D)(cp == P.sups[j])); break; }
       case T_INTEGRATE: out.push_back(bi::integrate<3>([](const D &x) { return 1.0 + x * x; }, P.s1[i], P.s2[j])); break;
+      case T_EQUAL_GRID_MIX: {
+        // shared objects on two logically equal grids with distinct storage: the shared spline is the LEFT operand
+        fold(out, P.s2[i] + P.s1b[j]); fold(out, P.s1[i] * P.s2b[j]);
+        out.push_back(P.bf(P.s2[i], P.s2b[j])); out.push_back(P.sp(P.s1b[i], P.s1[j]));
+        out.push_back((D)(P.s2[i].getSupport() == P.s2b[i].getSupport()) + 2 * (D)(P.grid == P.grid2) + 4 * (D)P.sups[i].hasSameGrid(P.s1b[j].getSupport()));
+        fold(out, bo::SplineOperator{P.s1b[j]} * P.s2[i]);
+        auto u = P.sups[i].calcUnion(P.s1b[j].getSupport()); out.push_back((D)u.size());
+        break;
+      }
+      case T_LOCAL_GRID_MIX: {
+        // every thread builds its own generator / grid from the same points and combines shared splines with local ones
+        bspline::BSplineGenerator<D> lg(std::vector<D>(P.grid.begin(), P.grid.end()));
+        auto lb = lg.generateBSplines<1>();
+        if (!lb.empty()) {
+          const auto &l = lb[j % lb.size()];
+          fold(out, P.s2[i] * l); fold(out, P.s1[i] + l); out.push_back(P.sp(P.s3[i], l)); out.push_back((D)P.s0[i].checkOverlap(l));
+          out.push_back(bi::LinearForm{bo::SplineOperator{P.s1[i]}}(l));
+        }
+        break;
+      }
+      case T_HIGH_ORDER_OPS: {
+        // template instances that the tests and examples never use (lazily initialised tables would be filled here)
+        switch (j % 6) {
+          case 0: fold(out, bo::X<4>{} * P.s1[i]); break;
+          case 1: fold(out, bo::X<5>{} * P.s0[i]); break;
+          case 2: fold(out, bo::X<6>{} * P.s0[i]); break;
+          case 3: fold(out, bo::Dx<3>{} * P.s3[i]); fold(out, bo::Dx<5>{} * P.s3[i]); break;
+          case 4: out.push_back(bi::integrate<2>([](const D &x) { return x; }, P.s1[i], P.s1[i])); out.push_back(bi::integrate<5>([](const D &x) { return x; }, P.s1[i], P.s2[i])); break;
+          default: out.push_back(bi::BilinearForm{bo::X<4>{}, bo::Dx<2>{} * bo::X<3>{}}(P.s1[i], P.s2[i])); break;
+        }
+        break;
+      }
       default: { bspline::support::Grid<D> g = P.grid; auto s = bspline::support::Support<D>::createWholeGrid(g); out.push_back((D)s.size() + (D)(g == P.grid)); break; }
     }
     pause(t.ops[q + 3]);
@@ -107,13 +145,14 @@ static void check_workload(const WorkC &c, vf::Obs &o) {
   auto grid = make_grid<D>(c.g);
   const Pool P(c, grid);
   const size_t nt = c.threads.size();
-  std::vector<std::vector<D>> expect(nt);
-  for (size_t t = 0; t < nt; t++) run_ops(P, c.threads[t], expect[t]);  // sequential reference
   o.cls("threads:" + std::to_string(nt));
   size_t nops = 0;
   for (const auto &t : c.threads) for (size_t q = 0; q + 3 < t.ops.size(); q += 4) { o.cls(std::string("op:") + tname((int)(((t.ops[q] % T_COUNT) + T_COUNT) % T_COUNT))); nops++; }
   o.nt(nt >= 2 && nops >= 4);
   i64 reps = g_repeats > 0 ? g_repeats : std::max<i64>(1, std::min<i64>(c.repeats, 10));
+  // The threaded executions come FIRST: a sequential warm-up would fill any lazily initialised table or cache
+  // before the threads start and hide exactly the races this check is after. The sequential reference follows.
+  std::vector<std::vector<std::vector<D>>> runs;
   for (i64 r = 0; r < reps; r++) {
     std::vector<std::vector<D>> got(nt);
     std::atomic<size_t> ready{0};
@@ -128,11 +167,30 @@ static void check_workload(const WorkC &c, vf::Obs &o) {
     while (ready.load() < nt) std::this_thread::yield();
     go.store(true, std::memory_order_release);
     for (auto &x : th) x.join();
-    for (size_t t = 0; t < nt; t++) {
-      VCHECK(o, got[t].size() == expect[t].size(), "thread " << t << " produced " << got[t].size() << " values, sequential run " << expect[t].size());
-      VCHECK(o, got[t].empty() || std::memcmp(got[t].data(), expect[t].data(), got[t].size() * sizeof(D)) == 0, "thread " << t << " obtained results that are not bit-identical to the sequential run (repeat " << r << ")");
-    }
+    runs.push_back(std::move(got));
   }
+  std::vector<std::vector<D>> expect(nt);
+  for (size_t t = 0; t < nt; t++) run_ops(P, c.threads[t], expect[t]);  // sequential reference
+  for (size_t r = 0; r < runs.size(); r++)
+    for (size_t t = 0; t < nt; t++) {
+      const auto &got = runs[r][t];
+      VCHECK(o, got.size() == expect[t].size(), "thread " << t << " produced " << got.size() << " values, sequential run " << expect[t].size());
+      VCHECK(o, got.empty() || std::memcmp(got.data(), expect[t].data(), got.size() * sizeof(D)) == 0, "thread " << t << " obtained results that are not bit-identical to the sequential run (repeat " << r << ")");
+    }
+}
+
+// first workload of every process: all threads immediately run EVERY op kind (cold start of anything lazily initialised)
+static WorkC cold_start_case(int nthreads) {
+  WorkC c;
+  c.g.den = 2; c.g.off = -5; c.g.gaps = {1, 2, 1, 3, 1, 2};
+  for (int i = 0; i < 4; i++) { SplineC s; s.s = i == 0 ? 0 : i; s.e = i == 0 ? 7 : std::min(7, i + 3); s.cden = 2; s.num = {3, -5, 2, 7, -1, 4, 6}; c.pool.push_back(s); }
+  for (int t = 0; t < nthreads; t++) {
+    ThreadC th;
+    for (int k = 0; k < T_COUNT; k++) { int code = (k * 7 + t * 3) % T_COUNT; for (int j = 0; j < 6; j++) { th.ops.push_back(code); th.ops.push_back((t + j) % 4); th.ops.push_back(j); th.ops.push_back(0); } }
+    c.threads.push_back(th);
+  }
+  c.repeats = 2;
+  return c;
 }
 
 int main(int argc, char **argv) {
@@ -162,6 +220,16 @@ int main(int argc, char **argv) {
     c.repeats = 3;
     return c;
   });
+  vf::add_enum_sub("cold-start",
+      [](vf::Sub &s, double) {
+        WorkC c = cold_start_case(4);
+        std::string text = vf::to_text(c);
+        vf::ctx().cur_case = text;
+        vf::Obs o;
+        check_workload(c, o);
+        vf::emit(s, text, o);
+      },
+      [](const std::string &t, vf::Obs &o) { check_workload(vf::from_text<WorkC>(t), o); }, /*every_shard=*/true);
   vf::add_sub<WorkC>("workloads", 40, gen, check_workload);
   return vf::main_impl(argc, argv, "C18");
 }
